@@ -2,7 +2,7 @@
    acc = versions accepted for the client so far (from the responses); the current snapshot
    version is what GetSnapshot answers before the request (rs); five_most_recent acc = ids of
    the last five versions, newest first. *)
-From TSS Require Import AStore Seq proofs.Chain proofs.Steps proofs.Inv proofs.Agree proofs.Hist proofs.Cas proofs.Snapshot.
+From TSS Require Import AStore Seq Http proofs.Chain proofs.Steps proofs.Inv proofs.Agree proofs.Hist proofs.Cas proofs.Snapshot proofs.UrgencyArith proofs.HttpProps proofs.HttpReach proofs.HttpLib proofs.HttpLib2.
 Open Scope N_scope.
 
 (* the rule, in the property's words: v non-nil, not already the snapshot version, among the
@@ -62,3 +62,25 @@ Example C10_window_boundary :
   as_accepts (mkCS 6 (Some (mkSnap 3 0 0, [])) six) 2 = false /\
   as_accepts (mkCS 6 (Some (mkSnap 3 0 0, [])) six) 4 = true.
 Proof. vm_compute. auto. Qed.
+
+(* as HTTP clients see it: after ANY HTTP history, for a listed client, a version id v and a well-formed
+   snapshot upload — a client the server has never seen gets 404 on all three requests; otherwise
+   add-snapshot answers 200 whatever it decides, and get-snapshot afterwards returns the new upload (id v, the
+   uploaded bytes, the snapshot content type) exactly when the rule accepts v against the versions accepted so
+   far and the version get-snapshot reported before, and exactly what it returned before when it does not *)
+Theorem C10_http_snapshot_rule : forall k cfg allow h c v cs E1 E2 E3,
+  cfg_ok cfg -> client_id_header allow (COk c) = inl c -> body_refused cs = false ->
+  let gs := mkReq MGet PSnapshot (COk c) CTAbsent [] in
+  let asr := mkReq MPost (PAddSnapshot (IdOk v)) (COk c) CTSnapshot cs in
+  horacle_ok (h ++ [(gs, E1)]) -> horacle_ok (h ++ [(asr, E2); (gs, E3)]) ->
+  let acc := accepted c (lib_of allow h) (responses k cfg (lib_of allow h)) in
+  let snap_before := fun rs : hresp => if N.eqb (rs_status rs) 200 then rs_version_id rs else None in
+  exists rs ra rs',
+    hresponses k cfg allow (h ++ [(gs, E1)]) = hresponses k cfg allow h ++ [rs] /\
+    hresponses k cfg allow (h ++ [(asr, E2); (gs, E3)]) = hresponses k cfg allow h ++ [ra; rs'] /\
+    ((acc = [] /\ rs_status rs = 404 /\ (rs_status ra = 404 \/ rs_status ra = 200) /\ rs_status rs' = 404) \/
+     (ra = mkResp 200 None None None None [] true /\
+      ((v <> base_of acc \/ base_of acc = nil_id) ->
+       (C10_rule acc (snap_before rs) v -> rs' = mkResp 200 (Some v) None None (Some RTSnapshot) (body_of cs) true) /\
+       (~ C10_rule acc (snap_before rs) v -> rs' = rs)))).
+Proof. exact http_add_snapshot_rule. Qed.
